@@ -395,6 +395,12 @@ class GetAncestralGraph(Contract):
     file = "pgmpy/base/DAG.py"
     qual = "DAG.get_ancestral_graph"
 
+    def make_result(self, ex, st, args):
+        from vf.pyvc.lib import RelSort
+        from vf.pyvc.engine import Obj
+        return Obj("DAG", {"_nodes": fresh("ag_nodes", set_sort(Atom)), "_E": fresh("ag_E", RelSort), "_directed": True,
+                           "latents": Coll("set", Atom, empty_set(Atom))})
+
     def variants(self, ex):
         yield "nodes=list", {"self": new_graph("DAG", "g"), "nodes": atom_list("S", "list")}, {}
 
@@ -457,3 +463,93 @@ class LocalIndependencies(Contract):
 
 
 register(LocalIndependencies())
+
+
+class MinimalDSeparator(Contract):
+    """partial contract (the Tian-Paz-Pearl minimality / existence theorem is bounded only): adjacent endpoints are
+    rejected; a returned set contains no latent node, neither endpoint, and d-separates the endpoints in the
+    ancestral graph of {start, end} (which is what the function tests)."""
+    file = "pgmpy/base/DAG.py"
+    qual = "DAG.minimal_dseparator"
+
+    def variants(self, ex):
+        yield "any", {"self": new_graph("DAG", "g"), "start": atom("start", "str"), "end": atom("end", "str")}, {}
+
+    def pre(self, ex, st, args):
+        g = args["self"]
+        x = fresh("x", Atom)
+        return z3.And(wf_graph(g), N_(g, args["start"].z), N_(g, args["end"].z), args["start"].z != args["end"].z,
+                      z3.ForAll([x], z3.Implies(g.fields["latents"].mem[x], N_(g, x))))
+
+    def snapshot(self, ex, st, args):
+        return graph_snapshot(args["self"])
+
+    def raises(self, ex, st, args):
+        E, s, e = args["self"].fields["_E"], args["start"].z, args["end"].z
+        return {"ValueError": z3.Or(E[s, e], E[e, s])}
+
+    def on_raise(self, ex, st, args, old, exc):
+        return graph_unchanged(args["self"], old)
+
+    def an_E(self, ex, old, args):
+        s, e = args["start"].z, args["end"].z
+        A = anc_spec(ex, old["_E"], z3.Store(z3.Store(empty_set(Atom), s, True), e, True))
+        a, b = fresh("a", Atom), fresh("b", Atom)
+        return A, z3.Lambda([a, b], z3.And(old["_E"][a, b], A[a], A[b]))
+
+    def sep_ok(self, ex, st, args, old, mem):
+        """mem holds no latent / endpoint and d-separates start,end in the ancestral graph"""
+        an = st.env["an_graph"]
+        s, e = args["start"].z, args["end"].z
+        th = REGISTRY_ATN.theory(ex, {"observed": Coll("set", Atom, mem)}, an.fields["_E"])
+        x = fresh("x", Atom)
+        return z3.And(z3.ForAll([x], z3.Implies(mem[x], z3.And(z3.Not(old["latents"][x]), x != s, x != e))),
+                      z3.Not(z3.And(z3.Not(th.Z[e]), z3.Or(th.R(s, e, UP), th.R(s, e, DOWN)))))
+
+    def post(self, ex, st, args, old, result):
+        if isinstance(result, NoneV):
+            return {"frame": graph_unchanged(args["self"], old)}
+        if not isinstance(result, Coll):
+            return z3.BoolVal(False)
+        return {"no-latent-no-endpoint-and-separates": self.sep_ok(ex, st, args, old, mem_or_empty(result)),
+                "frame": graph_unchanged(args["self"], old)}
+
+    # loop 0: while separator contains latents ; loop 1: for u in separator (replace latent by its parents); loop 2: minimisation
+    def an_ok(self, ex, st, args, old):
+        """an_graph is the ancestral graph of {start, end} (callee contract, kept through the loops)"""
+        an = st.env["an_graph"]
+        A, EA = self.an_E(ex, old, args)
+        a, b = fresh("a", Atom), fresh("b", Atom)
+        return z3.And(z3.ForAll([a], an.fields["_nodes"][a] == A[a]), z3.ForAll([a, b], an.fields["_E"][a, b] == EA[a, b]),
+                      z3.ForAll([a], z3.Not(an.fields["latents"].mem[a])))
+
+    def inv0(self, ex, st, args, old, ghost):
+        g = args["self"]
+        x = fresh("x", Atom)
+        A, _ = self.an_E(ex, old, args)
+        sep = mem_or_empty(st.env["separator"])
+        return z3.And(z3.ForAll([x], z3.Implies(sep[x], z3.And(N_(g, x), A[x]))), graph_unchanged(g, old), self.an_ok(ex, st, args, old))
+
+    def inv1(self, ex, st, args, old, ghost):
+        g = args["self"]
+        x = fresh("x", Atom)
+        A, _ = self.an_E(ex, old, args)
+        sc = mem_or_empty(st.env["separator_copy"])
+        sep = mem_or_empty(st.env["separator"])
+        return z3.And(z3.ForAll([x], z3.Implies(z3.Or(sc[x], sep[x]), z3.And(N_(g, x), A[x]))), graph_unchanged(g, old),
+                      z3.ForAll([x], z3.Implies(z3.And(sep[x], z3.Not(ghost["done"][x])), sc[x])), self.an_ok(ex, st, args, old))
+
+    def inv2(self, ex, st, args, old, ghost):
+        g = args["self"]
+        x = fresh("x", Atom)
+        ms = mem_or_empty(st.env["minimal_separator"])
+        sep = mem_or_empty(st.env["separator"])
+        A, _ = self.an_E(ex, old, args)
+        return z3.And(z3.ForAll([x], z3.Implies(ms[x], sep[x])), z3.ForAll([x], z3.Implies(sep[x], A[x])),
+                      z3.ForAll([x], z3.Implies(z3.And(sep[x], z3.Not(ghost["done"][x])), ms[x])),
+                      self.sep_ok(ex, st, args, old, ms), graph_unchanged(g, old), self.an_ok(ex, st, args, old))
+
+    invariants = property(lambda self: {0: self.inv0, 1: self.inv1, 2: self.inv2})
+
+
+register(MinimalDSeparator())
